@@ -218,7 +218,39 @@ def step (s : St) (w : List String) : St × String :=
     | none => (s, "bad-op")
   | _ => (s, "bad-op")
 
+/-! ### C++ part: `operator<<` of a colour and the parser -/
+
+/-- `R ok text=<hex> back=<colour>`; S: the printed text must be accepted and denote the colour printed -/
+def printLine (c : Color) : String :=
+  let t := colorPrint c
+  let back := match colorParse Gen.colors t with | some (b, _) => fmtVal (.col b) | none => "refused"
+  let r := s!"ok text={toHex t} back={back}"
+  -- the spec fixes only the round trip: any text, but the colour read back is the colour printed
+  s!"R {r} | C - | I ret=0 | S ok text={toHex t} back={fmtVal (.col c)} ; -"
+
+def stepZ (s : St) (w : List String) : St × String :=
+  match w with
+  | ["z", "begin"] => (s, "R ok | C - | I ret=0")
+  | ["z", "print", v] =>
+    match parseHex v with
+    | some [r, g, b, a] => (s, printLine ⟨r.toNat, g.toNat, b.toNat, a.toNat⟩)
+    | _ => (s, "bad-op")
+  | ["z", "reprint", v] =>
+    match parseHex v with
+    | some t =>
+      if t.contains 0 ∨ v.startsWith "zero:" then (s, "bad-op") else
+      match colorParse Gen.colors t with
+      | some (c, _) => (s, printLine c)
+      | none => (s, "R refused | C - | I ret=0 | S refused ; -")
+    | none => (s, "bad-op")
+  | _ => (s, "bad-op")
+
+def stepAll (s : St) (w : List String) : St × String :=
+  match w with
+  | "z" :: _ => stepZ s w
+  | _ => step s w
+
 def main (_args : List String) : IO Unit := do
-  Driver.loop (← IO.getStdin) (← IO.getStdout) step ({} : St)
+  Driver.loop (← IO.getStdin) (← IO.getStdout) stepAll ({} : St)
 
 end Driver.Layout
